@@ -52,6 +52,9 @@ def extend_ext(ext):
     ext['sum_hook'] = sum_hook
     np_ = ext['modules']['np']
     np_.exp = np_exp; np_.log = np_log
+    np_.linalg.inv = np_inv; np_.linalg.slogdet = np_slogdet
+    np_.array = np_array_of_stack(np_.array)
+    ext['comp_sym'] = comp_sym
 
 def wrapc(v, cell):
     """minimum-image wrap of one coordinate"""
@@ -84,6 +87,80 @@ def u_local_population(with_cell):
         I.ob('post[C09]:the-arrays-of-the-caller-are-not-written', BoolVal(all(I.A(a) is before[a.id] for a in (GJ, GI, W) + ((cell,) if with_cell else ()))), kind='post')
     return Unit(f'_local_population[{"cell" if with_cell else "free"}]', body, functions=[q])
 
-UNITS = [lambda: u_local_population(False), lambda: u_local_population(True)]
+# ------------------------------------------------------------------ cached inverse bandwidths / kernel normalisations
+A2 = z3.ArraySort(IntS, IntS, RealS)
+INV = z3.Function('inv', A2, IntS, A2)             # inverse of a d x d matrix (as a function of its entries)
+LOGABSDET = z3.Function('logabsdet', A2, IntS, RealS)
+a_, b_ = Int('a'), Int('b')
+CALLS = []
+
+def np_inv(I, h):
+    npstubs.used('np.linalg.inv (uninterpreted function of the entries)')
+    H = I.A(h)
+    if H.ndim != 2: raise Unsupported("inv of a non-matrix")
+    I.ob('pre:np.linalg.inv:square', tz(H.shape[0]) == tz(H.shape[1]), kind='pre')
+    CALLS.append('inv')
+    M = z3.Lambda([a_, b_], to_real(H.elem(a_, b_)))
+    R = INV(M, tz(H.shape[0]))
+    return I.new_arr(ArrVal(H.shape, lambda x, y: R[tz(x), tz(y)], RealS))
+def np_slogdet(I, h):
+    npstubs.used('np.linalg.slogdet (uninterpreted function of the entries)')
+    H = I.A(h); CALLS.append('slogdet')
+    return (Opaque('sign'), LOGABSDET(z3.Lambda([a_, b_], to_real(H.elem(a_, b_))), tz(H.shape[0])))
+
+def comp_sym(I, e, g, it, F):
+    """[f(h) for h in <stack of matrices of symbolic length>]: evaluated once on a bound index; the result is the stack of the values"""
+    if not isinstance(it, ArrRef) or I.A(it).ndim != 3 or g.ifs: raise Unsupported("comprehension over symbolic iterable")
+    A = I.A(it)
+    k = I.fresh('k!comp', IntS)
+    G = dict(F); I.assign(g.target, I.new_arr(ArrVal(A.shape[1:], (lambda k: lambda x, y: A.elem(k, tz(x), tz(y)))(k), A.sort)), G)
+    I.st.guards.append(And(0 <= k, k < tz(A.shape[0])))
+    try: body = I.ev(e.elt, G)
+    finally: I.st.guards.pop()
+    if isinstance(body, ArrRef):
+        B = I.A(body)
+        if B.ndim != 2: raise Unsupported("comprehension body")
+        return I.new_arr(ArrVal((A.shape[0],) + tuple(B.shape), (lambda B, k: lambda i, x, y: z3.substitute(B.elem(tz(x), tz(y)), (k, tz(i))))(B, k), RealS, ('stack',), True))
+    body = tz(body)
+    return I.new_arr(ArrVal((A.shape[0],), (lambda body, k: lambda i: z3.substitute(to_real(body), (k, tz(i))))(body, k), RealS, ('stack',), True))
+
+def np_array_of_stack(prev):
+    def f(I, a, dtype=None, **kw):
+        if isinstance(a, ArrRef) and I.A(a).tag == ('stack',):
+            A = I.A(a); return I.new_arr(ArrVal(A.shape, A.elem, A.sort))
+        return prev(I, a, dtype=dtype, **kw)
+    return f
+
+def u_cached(which, state):
+    """state: 'unfitted' | 'first' (fitted, cache empty) | 'cached' (fitted, cache filled)"""
+    def body(I):
+        g, d, n = I.fresh('g', IntS), I.fresh('d', IntS), I.fresh('n', IntS); I.assume(And(g >= 1, d >= 1, n >= 1))
+        del CALLS[:]
+        cls = I.repo.get(KD)
+        B = I.fresh_arr('bandwidth', (g, d, d)); D = I.fresh_arr('descriptors', (n, d))
+        cache = I.fresh_arr('cache', (g, d, d) if which == '_bandwidth_inv' else (g,)) if state == 'cached' else None
+        me = I.new_obj(cls, dict(fitted_=(state != 'unfitted'), bandwidth_=B, descriptors=D, _bandwidth_inv_=(cache if which == '_bandwidth_inv' else None), _normkernels_=(cache if which == '_normkernels' else None)))
+        r = I.getattr_(me, which)
+        o = I.O(me); R = I.A(r)
+        I.ob('reject[C17]:not-available-before-fit', BoolVal(state != 'unfitted'), kind='post')
+        I.ob('post[C17]:the-cache-holds-what-is-returned', BoolVal(isinstance(o.attrs[which + '_'], ArrRef) and o.attrs[which + '_'].id == r.id), kind='post')
+        if state == 'cached':
+            I.ob('post[C17]:a-filled-cache-is-served-without-recomputation', BoolVal(r.id == cache.id and not CALLS), kind='post')
+            return
+        j = I.fresh('j', IntS); I.assume(And(0 <= j, j < g))
+        Bj = z3.Lambda([a_, b_], to_real(I.A(B).elem(j, a_, b_)))
+        if which == '_bandwidth_inv':
+            x, y = I.fresh('x', IntS), I.fresh('y', IntS); I.assume(And(0 <= x, x < d, 0 <= y, y < d))
+            I.ob('post[C17]:one-inverse-per-grid-point', And(BoolVal(R.ndim == 3), tz(R.shape[0]) == g, tz(R.shape[1]) == d, tz(R.shape[2]) == d), kind='post')
+            I.ob('post[C17]:entry-j-is-the-inverse-of-the-bandwidth-of-grid-point-j', R.elem(j, x, y) == INV(Bj, d)[x, y], kind='post')
+        else:
+            I.ob('post[C17]:one-normalisation-per-grid-point', And(BoolVal(R.ndim == 1), tz(R.shape[0]) == g), kind='post')
+            I.ob('post[C17]:entry-j-is-d-log-2pi-plus-the-log-determinant-of-the-bandwidth-of-grid-point-j',
+                 R.elem(j) == z3.ToReal(d) * LOG(RealVal(2) * RealVal(repr(3.141592653589793))) + LOGABSDET(Bj, d), kind='post')
+    rn = 'reject[C17]:not-available-before-fit'
+    return Unit(f'SparseKDE.{which}[{state}]', body, functions=[KD + '.' + which], on_raise=(lambda I, st, r: r.kind == 'ValueError') if state == 'unfitted' else None,
+                reject_name=rn if state == 'unfitted' else None)
+
+UNITS = [lambda: u_local_population(False), lambda: u_local_population(True)] + [(lambda w, s_: (lambda: u_cached(w, s_)))(w, s_) for w in ('_bandwidth_inv', '_normkernels') for s_ in ('unfitted', 'first', 'cached')]
 RT = False
-TRUSTED = ["finite-sum functionals SUMD / SUMARR, exp, log uninterpreted: equal summand functions give equal sums (congruence of the functional on identical lambda terms)"]
+TRUSTED = ["finite-sum functionals SUMD / SUMARR, exp, log, matrix inverse and log|det| uninterpreted functions of their arguments: equal arguments give equal values (congruence on identical lambda terms)"]
